@@ -65,6 +65,19 @@ def apply_stubs(names):
             valida.datapath.ContainerValue.__repr__ = lambda self: "<part>"
             valida.datapath.MapOrListValue.__repr__ = lambda self: "<part>"
             valida.datapath.DataPath.__repr__ = lambda self: "<path>"
+        elif n == "sym_repr":
+            # Engine-side, no valida code is replaced: the *text* CrossHair renders for a symbolic
+            # atom is a constant. CrossHair's own SymbolicInt.__repr__ forks once per sign and digit
+            # count (~40 ways) and str/float repr realise the atom; valida renders data values into
+            # exception texts that it then discards (Data.__init__, data.py:20) and into failure
+            # reasons whose wording no property constrains.
+            from crosshair.libimpl import builtinslib as B
+
+            B.SymbolicInt.__repr__ = lambda self: "<int>"
+            B.SymbolicFloat.__repr__ = lambda self: "<float>"
+            B.AnySymbolicStr.__repr__ = lambda self: "'<str>'"
+            B.LazyIntSymbolicStr.__repr__ = lambda self: "'<str>'"
+            B.SymbolicNumberAble.__format__ = lambda self, fmt: "<num>"
         else:
             raise ValueError(f"unknown stub {n!r}")
 
